@@ -630,3 +630,53 @@ def r9_float_widening_format(ck, P):
                 ck.violation(R, f.name, 'format passed to pixman_expand_to_float', '%s widens fetched pixels with %s instead of the image\'s format: channels narrower than 8 bits are widened through their 8-bit replication (rep8(v)/255) here and as v/(2^n-1) by the sibling reader, so the two float readers disagree' % (f.name, what), c.loc())
     if n < 2:
         ck.incomplete(R, 'expected the scanline and the single-pixel generic float reader, found %d call(s)' % n)
+
+
+def r10_accessor_presence(ck, P):
+    """sibling agreement: when is an image "an image with accessors"?"""
+    R = ck.rule('C10-R10', 'every place that decides between direct addressing and the accessor functions from the presence of read_func / write_func takes the accessor side as soon as either one is set (partial evaluation of the decision for (read, write) = (set, none), (none, set), (set, set)): the flag computation, the accessor set-up and the edge rasteriser agree', floor=3)
+    sites = []
+    for f in P.functions():
+        rd = [x for x in f.insts() if x.op == 'load' and (f.last_field(f.path(x.a[0])) or '').endswith('bits_image.read_func')]
+        wr = [x for x in f.insts() if x.op == 'load' and (f.last_field(f.path(x.a[0])) or '').endswith('bits_image.write_func')]
+        if not rd or not wr:
+            continue
+        # a decision: conditional branches whose condition is a null test of such a load
+        tests = set()
+        for x in f.insts():
+            if x.op == 'icmp' and any(o[0] == 'n' for o in x.a) and any(o[0] == 'v' and f.by_id[o[1]] in rd + wr for o in x.a):
+                tests.add(x.i)
+        if len(tests) < 2:
+            continue
+        sites.append((f, {x.i for x in rd}, {x.i for x in wr}, tests))
+    for f, rd, wr, tests in sites:
+        ck.saw(f)
+        # blocks reachable only when some accessor test says "present": compare reachability under (0,0) with the three other inputs
+        def reach(rv, wv):
+            def known(x):
+                if x.op == 'icmp' and x.i in tests:
+                    o = [q for q in x.a if q[0] == 'v'][0]
+                    val = rv if o[1] in rd else wv
+                    isnull = (val == 0)
+                    return int(isnull if x.d['p'] == 'eq' else not isnull)
+                return None
+            return common.reach_under(f, known, set(range(len(f.blocks))))
+        base = reach(0, 0)
+        both = reach(1, 1)
+        accessor_blocks = both - base          # executed when accessors are present, not when absent
+        test_blocks = {f.by_id[t].bb.id for t in tests}
+        direct_blocks = (base - both) - test_blocks      # blocks that only continue the decision are not a side
+        if not accessor_blocks and not direct_blocks:
+            continue
+        bad = None
+        for rv, wv, nm in ((1, 0, 'only read_func'), (0, 1, 'only write_func')):
+            r = reach(rv, wv)
+            if (accessor_blocks and not (accessor_blocks <= r)) or (direct_blocks & r):
+                bad = nm
+        where = '%s: accessor decision' % f.name
+        if bad:
+            ck.violation(R, f.name, 'accessor presence test', '%s treats an image with %s set as an image without accessors: it is then addressed directly by code that the accessor-aware siblings would not use, and the callback is never called' % (f.name, bad), '%s:%d' % (f.unit.name, f.line))
+        else:
+            ck.ok(R, where, 'either accessor selects the accessor side')
+    if len(sites) < 3:
+        ck.incomplete(R, 'expected at least three accessor-presence decisions, found %s' % [f.name for f, *_ in sites])
